@@ -22,7 +22,7 @@ func init() {
 	})
 	Register(&Rule{
 		Name:  "R-NO-RELOCK",
-		Props: []string{"C03", "C11", "C12"},
+		Props: []string{"C03", "C11", "C12", "C10"},
 		Min:   10,
 		Doc: "sync.Mutex is not reentrant: while a mutex is held (lockset), no call goes to a function or closure (resolved statically, two levels) that acquires the same mutex " +
 			"(same captured variable, or same field on the same receiver): such a path blocks forever on its own lock and, through it, every other user of that lock",
